@@ -13,12 +13,13 @@ func main() {
 	repo := flag.String("repo", "/repo", "repository root")
 	out := flag.String("out", "", "output directory")
 	pkgs := flag.String("pkgs", strings.Join(instr.DefaultPkgs, ","), "packages")
+	typed := flag.Bool("typed", true, "type-check the packages and monitor all fields of galaxy struct types")
 	flag.Parse()
 	if *out == "" {
 		fmt.Fprintln(os.Stderr, "need -out")
 		os.Exit(2)
 	}
-	ov, rep, err := instr.Generate(instr.Config{Repo: *repo, OutDir: *out, Pkgs: strings.Split(*pkgs, ",")})
+	ov, rep, err := instr.Generate(instr.Config{Repo: *repo, OutDir: *out, Pkgs: strings.Split(*pkgs, ","), Typed: *typed})
 	if err != nil {
 		fmt.Fprintln(os.Stderr, err)
 		os.Exit(2)
